@@ -5,6 +5,7 @@ import (
 	"io"
 	"reflect"
 	"runtime"
+	"strings"
 
 	"go.pennock.tech/tabular"
 	"go.pennock.tech/tabular/csv"
@@ -184,7 +185,7 @@ func (s *c12State) liveCells() []*c12Owner {
 
 func (s *c12State) step() (string, string) {
 	r, t := s.r, s.t
-	switch r.Intn(16) {
+	switch r.Intn(17) {
 	case 0, 1, 2, 3, 4, 5, 6:
 		o := s.owners[r.Intn(len(s.owners))]
 		if r.Chance(1, 3) {
@@ -218,6 +219,41 @@ func (s *c12State) step() (string, string) {
 		o.acc = func() []tabular.PropertyOwner { return []tabular.PropertyOwner{pc} }
 		s.addOwner(o)
 		s.say("%s := by-value copy", o.name)
+	case 16:
+		// by-value copies of a column and of a row: new owners starting from a snapshot
+		if r.Bool() {
+			n := r.Range(0, t.NColumns())
+			src := s.colOwn[n]
+			cc := *t.Column(n)
+			pc := &cc
+			o := &c12Owner{name: fmt.Sprintf("by-value copy#%d of column %d", len(s.owners), n), m: map[interface{}]interface{}{}}
+			for k, v := range src.m {
+				o.m[k] = v
+			}
+			o.acc = func() []tabular.PropertyOwner { return []tabular.PropertyOwner{pc} }
+			s.addOwner(o)
+			s.say("%s", o.name)
+		} else if len(s.rows) > 0 {
+			ri := r.Intn(len(s.rows))
+			var src *c12Owner
+			for _, o := range s.owners {
+				if !o.isCell && len(o.acc()) == 1 && o.acc()[0] == tabular.PropertyOwner(s.rows[ri]) {
+					src = o
+				}
+			}
+			if src == nil {
+				return "", ""
+			}
+			rc := *s.rows[ri]
+			pr := &rc
+			o := &c12Owner{name: fmt.Sprintf("by-value copy#%d of (%s)", len(s.owners), src.name), m: map[interface{}]interface{}{}}
+			for k, v := range src.m {
+				o.m[k] = v
+			}
+			o.acc = func() []tabular.PropertyOwner { return []tabular.PropertyOwner{pr} }
+			s.addOwner(o)
+			s.say("%s", o.name)
+		}
 	case 8:
 		// capture a column handle now, to be used after later growth
 		n := r.Range(0, t.NColumns())
@@ -287,11 +323,16 @@ func (s *c12State) step() (string, string) {
 		s.addRowOwner(rows[len(rows)-1], fmt.Sprintf("separator row %d", len(rows)))
 	case 14:
 		s.say("render pass (csv + text: stores private measurement properties on cells)")
-		if p, _, _ := Guard(func() {
+		if p, val, _ := Guard(func() {
 			csv.Wrap(t).RenderTo(io.Discard)
 			texttable.Wrap(t).RenderTo(io.Discard)
 		}); p {
-			s.c.Rec.Count("render_panics_ignored_here(C09)", 1)
+			// the history stores arbitrary values under the alignment key; a non-Alignment value there is a documented panic of the text renderer
+			if msg := fmt.Sprint(val); strings.Contains(msg, "align.Alignment") || strings.Contains(msg, "unhandled alignment") {
+				s.c.Rec.Count("renders_refused_by_panic_on_non-Alignment_value(outside every statement)", 1)
+			} else {
+				return "render-panics-in-property-history", fmt.Sprintf("a render pass panicked: %v", val)
+			}
 		}
 	case 15:
 		// set the same key again with the same or another value on the owner used most recently
@@ -434,7 +475,7 @@ func init() {
 	register(&Prop{
 		ID:    "C12",
 		Level: "exploration",
-		Rule: "phase 0: random histories of 10-80 steps over set / set-nil / repeated set / copy-cell-by-value / set properties on a cell before adding it / capture column handle / grow table (rows wider than the column bookkeeping's capacity) / extend attached row / add separator / render pass, with an 18-key universe (int(1), int64(1), uint8(1), two named ints, \"1\", float64(1), true, two distinct pointers to equal structs, a struct, an array, align.PropertyType, properties.Skipable, rune, \"a\",\"b\",\"c\"); after EVERY step all (owner, accessor, key) triples are read back and compared with the reference maps. " +
+		Rule: "phase 0: random histories of 10-80 steps over set / set-nil / repeated set / copy-cell-by-value / copy-column-by-value / copy-row-by-value / set properties on a cell before adding it / capture column handle / grow table (rows wider than the column bookkeeping's capacity) / extend attached row / add separator / render pass, with an 18-key universe (int(1), int64(1), uint8(1), two named ints, \"1\", float64(1), true, two distinct pointers to equal structs, a struct, an array, align.PropertyType, properties.Skipable, rune, \"a\",\"b\",\"c\"); after EVERY step all (owner, accessor, key) triples are read back and compared with the reference maps. " +
 			"phase 1 (exhaustive over 5 owners x 1-3 keys): %#v dump after 2 rounds of sets must equal the dump after 52 rounds. phase 2 (solo, shard 0): 200k repeated sets must not raise the live heap by more than 4 MB. " +
 			"Distinct = distinct histories; non-trivial = more than 5 steps.",
 		Assumptions: []string{
